@@ -714,16 +714,17 @@ func ruleC13(p *Prog, r *Result) {
 		r.Undecided("C13.error", "bkl.process2StringInterp / replacement callback", p.Pos(fn.Pos()), "callback not found")
 		return
 	}
-	ci := newPSRule(p, r, "C13.error", p.FuncName(closure), PSOpts{NoInline: map[string]bool{"bkl.getWithVar": true, "bkl.process2": true}})
+	ci := newPSRule(p, r, "C13.error", p.FuncName(closure), PSOpts{NoInline: map[string]bool{"bkl.getWithVar": true, "bkl.process2": true, "bkl.process2String": true}})
+	nested := mOr(mCall("bkl.process2"), mCall("bkl.process2String")) // the evaluator applied to a looked-up string
 	cellEntry := func(t *T) bool { return t != nil && t.Op == "freeval" && t.Name == "err" }
 	ci.all("a failed lookup or nested evaluation is recorded in the captured error", selectPaths(ci.paths, func(pa *Path) bool {
-		return guardPol(pa, "err", mCall("bkl.getWithVar"), nil) == 1 || guardPol(pa, "err", mCall("bkl.process2"), nil) == 1
+		return guardPol(pa, "err", mCall("bkl.getWithVar"), nil) == 1 || guardPol(pa, "err", nested, nil) == 1
 	}), "err cell receives the error", func(pa *Path) (bool, string) {
 		if guardPol(pa, "err", cellEntry, nil) == 1 {
 			return true, "" // an earlier reference's error is already recorded and is kept
 		}
 		for _, e := range pa.Effects {
-			if e.Kind == "cellset" && e.Callee == "err" && (mCall("bkl.getWithVar")(e.Args[0]) || mCall("bkl.process2")(e.Args[0])) {
+			if e.Kind == "cellset" && e.Callee == "err" && (mCall("bkl.getWithVar")(e.Args[0]) || nested(e.Args[0])) {
 				return true, ""
 			}
 		}
@@ -753,12 +754,12 @@ func ruleC13(p *Prog, r *Result) {
 		return false, "the shared error cell may hold an earlier reference's error on entry and is overwritten with " + truncate(last.String(), 80) + " (possibly nil): a failing reference followed by a resolvable one evaluates successfully"
 	})
 	ci.all("a successful reference is rendered with %v", selectPaths(ci.paths, func(pa *Path) bool {
-		return guardPol(pa, "err", mCall("bkl.getWithVar"), nil) == -1 && guardPol(pa, "err", mCall("bkl.process2"), nil) != 1 && pa.End == "return"
+		return guardPol(pa, "err", mCall("bkl.getWithVar"), nil) == -1 && guardPol(pa, "err", nested, nil) != 1 && pa.End == "return"
 	}), `fmt.Sprintf("%v", value)`, func(pa *Path) (bool, string) {
 		res := pa.Results[0]
 		if res.Op == "call" && res.Name == "fmt.Sprintf" && mStr("%v")(res.Args[0]) {
 			v := res.Args[1].Args[0]
-			if mResOf(0, mCall("bkl.getWithVar"))(v) || mResOf(0, mCall("bkl.process2"))(v) {
+			if mResOf(0, mCall("bkl.getWithVar"))(v) || mResOf(0, nested)(v) {
 				return true, ""
 			}
 			return false, "what is rendered is not the looked-up value: " + v.String()
